@@ -9,8 +9,9 @@ from ufo import build, err_kind
 
 ID = "C11"
 THEOREM = ("Ufo2ft.C11.C11_unique / findFree_fresh / findFree_fuel_irrelevant / C11_renamed (C11_source, C11_legal) / "
-           "C11_distinct / validName_eq / autoName_unfold / prodName_fuel / uniName_spec / C11_perm / C11_perm_charStrings / "
-           "C11_perm_injective / C11_decide / C11_process / C11_reject")
+           "C11_distinct + C11_perm_injective (any glyph order, any glyph set; C11_old_collision = counterexample for the "
+           "former seen={}) / validName_eq / autoName_unfold / prodName_fuel / uniName_spec / C11_perm / "
+           "C11_perm_charStrings / C11_decide / C11_process / C11_reject")
 N = {"quick": 1000, "thorough": 20000}
 RULE = ("three streams. (1) 'unique': PostProcessor._unique_name on random `seen` dicts (arbitrary counters, runs of taken "
         "suffixes x.1..x.k, names that are themselves suffixed) - 2N calls. (2) 'names': _build_production_names on a "
@@ -432,15 +433,16 @@ def agree(req, rep):
 
 
 def classify_failure(res):
-    """the one shape that is a finding of the unchanged tree: everything the property asks holds except that
-    the names are not all distinct, and that only because a glyph OUTSIDE the glyph set given to the
-    post-processor (it keeps its name and is not recorded in `seen`) bears the name a renamed glyph received."""
+    """names the one shape that WAS a defect of ufo2ft (fixed; listed as kind=fixed, which suppresses nothing, so a
+    recurrence is a VIOLATION): the only thing wrong is that a glyph OUTSIDE the glyph set given to the post-processor
+    (it keeps its name) bears the name a renamed glyph received - i.e. the names are not all distinct, while the
+    per-glyph predicate evaluated WITHOUT reserving the unrenamed glyphs' names, and every other check, hold."""
     if res["req"]["op"] not in ("names", "process"):
         return None
     ch = res["model"].get("checks", {})
-    if not ch or ch.get("covers") or ch.get("distinct") or not ch.get("renamed"):
+    if not ch or ch.get("covers") or ch.get("distinct") or ch.get("renamed") or not ch.get("renamedNoReserve"):
         return None
-    if any(not v for k, v in ch.items() if k not in ("distinct", "covers")):
+    if any(not v for k, v in ch.items() if k not in ("distinct", "covers", "renamed")):
         return None
     obs = res["req"]["obs"]
     if isinstance(obs, dict) and obs.get("err") is not None:
@@ -492,14 +494,17 @@ def shrink(case):
 LEVEL_TEXT = ("Proved for all inputs (Lean): _unique_name's loop stops within |seen|+1 iterations on an unused name (pigeonhole; "
               "more budget changes nothing), so for ANY list of candidates the names given out are pairwise distinct; every "
               "renamed glyph gets its cleaned candidate (map entry if non-empty, else automatic name; > 63 characters falls "
-              "back to the cleaned source name), unchanged when still free and with a numeric suffix otherwise; all such names "
+              "back to the cleaned source name), unchanged when still free (not given out before and not the name of a glyph "
+              "that keeps its name) and with a numeric suffix otherwise; ALL final names of the font are pairwise distinct for "
+              "any glyph order and any glyph set, unsourced glyphs such as a synthesised '.notdef' included; all renamed names "
               "consist of [0-9A-Za-z_.]; the automatic name satisfies fuel-free recursion equations (uniXXXX/uXXXXX, suffix, "
               "ligature rules) and its recursion is on strictly shorter names; rename_glyphs maps the glyph order pointwise "
-              "(indices untouched), injectively when the glyph set covers the font; the 324-row decision table of "
+              "(indices untouched) and injectively; the 324-row decision table of "
               "process_glyph_names equals the documented one. 'Every other table byte-identical' is measured on every "
               "generated build (byte comparison against the build without production names).")
 LEVEL_NOTE = ("Trusted: Lean kernel + propext/Classical.choice/Quot.sound; the hand-written model's correspondence to "
               "postProcessor.py is differential (function-level and through five compile entry points); the table-bytes claim "
-              "rests on the measured hypothesis that fontTools' table compilers see names only through indices. Distinctness of "
-              "ALL names needs every glyph of the font to be in the glyph set handed to the post-processor: true for static "
-              "builds, false for variable builds without a '.notdef' source glyph (finding).")
+              "rests on the measured hypothesis that fontTools' table compilers see names only through indices. The former "
+              "defect (seen = {}: a renamed glyph could take the name of a glyph outside the glyph set, e.g. the synthesised "
+              "'.notdef' of variable builds) is repaired in /repo; the old function survives only in the counterexample theorem "
+              "C11_old_collision, and the check still names that shape so that a recurrence is reported as a VIOLATION.")
